@@ -64,7 +64,7 @@ func FreePort(ip string) (int, error) { return freePort(ip) }
 func freePort(ip string) (int, error) {
 	var ln net.Listener
 	var err error
-	for try := 0; try < 40; try++ {
+	for try := 0; try < 400; try++ {
 		if ln, err = net.Listen("tcp", ip+":0"); err == nil {
 			break
 		}
@@ -157,7 +157,7 @@ func Start(o Options) (*Env, error) {
 	}
 	// thousands of short-lived connections leave the loopback short of ephemeral ports for a moment: try again
 	var ln net.Listener
-	for try := 0; try < 40; try++ {
+	for try := 0; try < 400; try++ {
 		if ln, err = net.Listen("tcp", "127.0.0.1:0"); err == nil {
 			break
 		}
@@ -252,7 +252,14 @@ func (e *Env) Dial(version primitive.ProtocolVersion, compression string) (*Clie
 	return cl, nil
 }
 
-func (c *Client) Close() { _ = c.c.Close() }
+// Close resets the connection (no TIME_WAIT: tens of thousands of short cases would otherwise exhaust the loopback's
+// ephemeral ports).
+func (c *Client) Close() {
+	if tc, ok := c.c.(*net.TCPConn); ok {
+		_ = tc.SetLinger(0)
+	}
+	_ = c.c.Close()
+}
 
 func (c *Client) WriteBytes(b []byte) error {
 	_ = c.c.SetWriteDeadline(time.Now().Add(5 * time.Second))
